@@ -357,6 +357,7 @@ def _(e, c, a, raw):
 def _(e, c, a, raw):
     v = deref(e, a[0])
     if isinstance(v, Str): return v
+    if isinstance(v, Opaque) and v.kind == 'Url' and raw.rstrip().endswith('AsRef<str>>::as_ref'): return v.payload
     if isinstance(v, EnumV) and v.ty == 'Cow':
         inner = v.slots[0]
         return inner if isinstance(inner, (Ref, Str)) else Ref(v.slots, [0])
